@@ -104,14 +104,37 @@ def check_C01(tier):
                         "replay": {"property": pid, "grammar": r.case["src"], "input_symbol_ids": w,
                                    "reductions": reds, "tokens_requested": int(f[3]),
                                    "how": "driver model run on the implementation's GTable (ymodel R line); replay: bin/check C01 --replay <this file>"}})
+    # the COMPILED parsers of all five variants (tables, constants, translate switch and driver as emitted): every accepted
+    # run's reductions, read backwards, must be a rightmost derivation of exactly the tokens the lexer delivered
+    res = x_sweep(tier, rng, n=12 if tier == "quick" else 150)
+    ties += x_build_ties(res)
+    vnames = [v[3] for v in xrun.VARIANTS if not (v[0] == "typescript" and res["node"] is None)]
+    xaccepted = 0
+    for c in res["usable"]:
+        g = c["core"].g
+        if g is None:
+            continue
+        name2id = {v["name"]: k for k, v in g.syms.items()}
+        ids = [name2id.get(t if not t.startswith("'") else "$operator" + t[1], 0) for t in c["xs"]["terms"]]
+        for w in c["inputs"]:
+            toks = [ids[ord(ch) - 97] if ord(ch) - 97 < len(ids) else 0 for ch in w]
+            for vn in vnames:
+                r = xrun.impl_run(res, c, vn, w)
+                if r is None or r["verdict"] != "accept":
+                    continue
+                xaccepted += 1
+                if not (g.check_rm_derivation(r["log"], toks) and r["req"] == len(w) + 1):
+                    violations.append(xviol(pid, res, c, vn, "compiled parser accepts an input whose reductions are not a rightmost derivation of it",
+                                            {"input": w, "token_symbol_ids": toks, "reductions": r["log"], "tokens_requested": r["req"]}))
+    accepted += xaccepted
     dist = sweep.distribution(results)
-    cov = {"evaluations": runs, "distinct_nontrivial": dist["distinct_rule_sets"],
+    cov = {"evaluations": runs, "distinct_nontrivial": dist["distinct_rule_sets"], "accepted_runs_of_compiled_parsers": xaccepted,
            "rule": "corpus + sampled exhaustive tiny grammars + random structured grammars (+precedence, literals) + operator grammars; "
                    "distinct = distinct rule sets among accepted grammars; per grammar all strings up to a length bound over its terminals plus an unknown token, sampled sentences and mutated sentences are run through the driver model on the implementation's GTable",
            "samples": samples, "accepted_runs": accepted, "distribution": dist,
            "certificates_evaluated": sum(1 for r in results if r.refused is None) * 3,
            "trusted_base": TRUSTED,
-           "partial": ["execution of the compiled generated parsers (mechanism X) is covered by the C08 check, which compares them with this driver model"]}
+           "partial": ["the compiled generated parsers are executed on a smaller set of grammars than the driver model; C08 compares them with the driver model run by run"]}
     return common.conclude(pid, tier, "proof", proof, ties, violations, cov,
                            ["inputs are token sequences before the first end marker; symbols outside 0..nT cannot be produced by translate()"])
 
@@ -1072,6 +1095,11 @@ def make_xcases(tier, rng, n=None):
         knobs = rng.choice([{"max_t": 3, "max_n": 3}, {"max_t": 4, "max_n": 3, "p_prec": 0.8}, {"max_t": 3, "max_n": 2, "max_len": 5},
                             {"max_t": 4, "max_n": 4, "p_lit": 0.5}])
         sp = gen.rand_grammar(rng, **knobs)
+        if i % 6 == 5 and len(sp["rules"]) >= 2:
+            # the same production written twice (a copy-pasted alternative): legal, the second copy is never reduced,
+            # and every rule after it must keep its own action
+            j = rng.randrange(len(sp["rules"]) - 1)
+            sp = dict(sp, rules=sp["rules"][:j + 1] + [dict(sp["rules"][j])] + sp["rules"][j + 1:])
         xc.append({"id": "xr:%d" % i, "xs": xrun.xspec(sp, rng), "kind": "rand"})
     for i in range(max(3, n // 6)):
         sp = gen.expr_grammar(rng)
@@ -1276,6 +1304,8 @@ def eval_tree(xs, g, tree, pos):
     if tree[0] == "tok":
         return None, pos + 1
     _, r, kids = tree
+    if not (1 <= r <= len(xs["rules"])) or len(xs["rules"][r - 1]["rhs"]) != len(kids):
+        raise ValueError("rule %d of the parse has another shape than rule %d of the grammar file" % (r, r))
     rule = xs["rules"][r - 1]
     acc = xs["K"][r - 1]
     for k, kid in enumerate(kids):
@@ -1492,7 +1522,12 @@ def check_C07(tier):
                     violations.append(xviol(pid, res, c, vn, "accepted input whose reduction log is not a bottom-up parse of it",
                                             {"input": w, "log": r["log"]}))
                     continue
-                want, _ = eval_tree(c["xs"], g, tree, 0)
+                try:
+                    want, _ = eval_tree(c["xs"], g, tree, 0)
+                except ValueError as e:
+                    violations.append(xviol(pid, res, c, vn, "the actions that ran (their log) are not those of the rules the grammar file gives these numbers: " + str(e),
+                                            {"input": w, "log": r["log"]}))
+                    continue
                 if len(samples) < 3 and len(w) >= 3 and vn == vnames[0]:
                     samples.append({"case": c["id"], "input": w, "log": r["log"], "value": r["val"], "bottom_up_value": want})
                 if want != r["val"]:
@@ -1547,6 +1582,22 @@ def check_C17(tier):
     lines_checked = 0
     parsed_kinds = {"S": 0, "R": 0}
     unparseable = []
+    # tracing switched on by an action in the middle of a parse (the yydebug idiom): from that reduction on the lines
+    # printed must be the lines the same run prints when traced from the start
+    late_runs = 0
+    for c in res["usable"]:
+        for v in govars:
+            for w in [x for x in c["inputs"] if x][:12]:
+                full, late = xrun.impl_run(res, c, v[3], w), xrun.impl_run(res, c, v[3], "!" + w)
+                if full is None or late is None or full["verdict"] == "loop":
+                    continue
+                late_runs += 1
+                k = next((i for i, ln in enumerate(full["trace"]) if ln.startswith("look ahead")), None)
+                want = full["trace"][k:] if k is not None else []
+                if late["trace"] != want:
+                    j = next((i for i in range(max(len(want), len(late["trace"]))) if i >= len(want) or i >= len(late["trace"]) or want[i] != late["trace"][i]), 0)
+                    violations.append(xviol(pid, res, c, v[3], "the trace printed after an action has switched tracing on differs from the trace of the same run from that reduction on",
+                                            {"input": w, "first_differing_line": j, "printed": late["trace"][j:j + 3], "expected": want[j:j + 3]}))
     for c in res["usable"]:
         g = c["core"].g
         if g is None:
@@ -1651,7 +1702,7 @@ def check_C17(tier):
                      "example": unparseable[0]["replay"].get("trace", [])[:6] if isinstance(unparseable[0].get("replay"), dict) else None})
     else:
         violations += unparseable
-    cov = {"evaluations": lines_checked, "trace_table_texts_compared_with_emission_model": emit_n, "trace_table_texts_not_compared_non_ascii": emit_skipped, "distinct_nontrivial": len(res["usable"]),
+    cov = {"evaluations": lines_checked, "runs_with_tracing_switched_on_by_an_action": late_runs, "trace_table_texts_compared_with_emission_model": emit_n, "trace_table_texts_not_compared_non_ascii": emit_skipped, "distinct_nontrivial": len(res["usable"]),
            "rule": "Go variants (global and -o, packed and -u) with IsTrace = true; every printed line of every run replayed against the implementation's LR(0) automaton (core dump of the same grammar) and the reduction log; evaluations = trace lines",
            "samples": samples, "runs_total": nruns, "programs": len(res["usable"]) * len(govars),
            "disagreements_checked": len(ties) + len(violations), "trusted_base": TRUSTED}
@@ -1755,7 +1806,12 @@ def c16_render(sp, target, pkg, rng_actions):
         union = " val :number; str :string; n_2 :number; // the semantic values " if inline else " val :number;\n str :string;\n n_2 :number;"
         pro = "// ts"
         epi = "\nfunction GetToken(input :string, model:{ValType :ValType, pos :number}) :number {\n\treturn -1\n}\nconsole.log(\"LOADED\", typeof Parser === \"function\");\n"   # loading only: running the parser of a cyclic grammar need not terminate
-    return gen.render(sp, prologue=pro, epilogue=epi, union=union, actions=acts, tags=tags)
+    src = gen.render(sp, prologue=pro, epilogue=epi, union=union, actions=acts, tags=tags)
+    if rng_actions.random() < 0.25:
+        # block comments glued to the token that follows (an identifier, a literal, the `{` of an action)
+        body_end = src.rfind("%%")
+        src = gen.glue_comments(src[:body_end + 2], rng_actions, p=0.5, before=rng_actions.choice(["{", "{", "_{'"])) + src[body_end + 2:]
+    return src
 
 
 def check_C16(tier):
@@ -2263,6 +2319,7 @@ def c11_spec(rng):
     sp["eof_token"] = rng.random() < 0.3
     # numbers given in a LATER declaration than the first mention (`%token <val> NUM` … `%token NUM 5`),
     # chosen just above the largest code so far, where the automatic range would go next
+    sp["num_pad"] = {t: rng.randint(1, 3) for t in sp["nums"] if rng.random() < 0.3}     # zero-padded numerals (007, 0300): still decimal
     sp["redecl"] = []
     unnumbered = [t for t in sp["tokens"] if t not in sp["nums"]]
     if unnumbered and rng.random() < 0.5:
@@ -2510,6 +2567,8 @@ def check_C12(tier):
             src = src.replace("%start", "%%type <v> %s\n%%start" % sp["extra_type"], 1)
         if sp.get("type_on_token"):
             src = src.replace("%start", "%%type <v> %s\n%%start" % sp["type_on_token"], 1)
+        if i % 5 == 4:
+            src = gen.glue_comments(src, rng)      # comments glued to the following token: layout only
         cases.append({"id": "g%d" % i, "src": src})
     rec = run_front(cases)
     ties, violations, samples = [], [], []
@@ -2870,6 +2929,9 @@ def check_C18(tier):
     long_t, long_n = "END_OF_STATEMENT_SEPARATOR_TOKEN_SEMICOLON", "declaration_list_with_optional_trailing_separator_"
     cases.append({"id": "long:names", "kind": "hand", "src": "%%token %s ID\n%%start prog\n%%%%\nprog : %sa | %sb ;\n%sa : ID %s ;\n%sb : ID ID %s ;\n%%%%\n" % (
         long_t, long_n, long_n, long_n, long_t, long_n, long_t)})
+    # more than 256 rules (rule numbers that do not fit a byte) and more than 256 symbols
+    cases.append({"id": "many:rules", "kind": "hand", "src": "%token SEP " + " ".join("T%03d" % i for i in range(300)) + "\n%start prog\n%%\nprog : | prog item SEP ;\nitem : " +
+                  " | ".join("T%03d" % i for i in range(300)) + " ;\n%%\n"})
     cases.append({"id": "unicode:names", "kind": "hand", "src": "%token ЧИСЛО\n%left '×'\n%left '→'\n%start список\n%%\nсписок : список '→' élément | élément ;\nélément : élément '×' ЧИСЛО | ЧИСЛО ;\n%%\n"})
     safe = []
     for c in cases:
@@ -3027,7 +3089,9 @@ def check_C18(tier):
                 a, b = s.rsplit(" : ", 1)
                 return (a, tuple(sorted(b.split())))
             if sorted(map(canon, got)) != sorted(map(canon, exp)):
-                why = "listing lookahead sets differ from the lookaheads used for the table: %s vs %s" % (sorted(map(canon, got))[:3], sorted(map(canon, exp))[:3])
+                gs, es = set(map(canon, got)), set(map(canon, exp))
+                why = "listing lookahead sets differ from the lookaheads used for the table: only in the listing %s; only in the table %s" % (
+                    str(sorted(gs - es)[:3])[:400], str(sorted(es - gs)[:3])[:400])
                 readable = bool(got) and all(re.fullmatch(r"\d+:\S+-->.* : .*", x) for x in got)
         if why:
             kind = next((k for pre, k in C18_TEXT_KINDS if why.startswith(pre)), "struct")
